@@ -69,6 +69,8 @@ def c18(run):
     from rules import r_consume
     r_consume.run(run, P)
     r_consume.run_handback(run, P)
+    from rules import r_ownraw
+    r_ownraw.run(run, P)
     from rules import r_noexit
     r_noexit.run(run, P)
     run.assumptions = ASSUME_COMMON + ["every allocation funnels through coap_malloc_type/coap_realloc_type/malloc/calloc/realloc/strdup",
@@ -95,6 +97,8 @@ def c12(run):
     r_session.run_touch(run, P)
     from rules import r_consume
     r_consume.run(run, P)
+    from rules import r_ownraw
+    r_ownraw.run(run, P)
     from rules import r_ownlocal
     r_ownlocal.run(run, P)
     run.min_instances('R-OWN-LOCAL', 30)
